@@ -77,8 +77,8 @@ func (s *server) do(r genReq) (genResp, error) {
 type target struct {
 	name  string
 	raw   []byte
-	goreq []byte // request for protoc-gen-go (synthetic schemas only: the message types do not exist yet)
-	dirs map[string]string // proto file name (without .proto) -> package directory in the example module
+	goreq []byte            // request for protoc-gen-go (synthetic schemas only: the message types do not exist yet)
+	dirs  map[string]string // proto file name (without .proto) -> package directory in the example module
 }
 
 func loadTargets(t *testing.T) []target {
